@@ -73,6 +73,14 @@ func (m *Machine) loopEnter(c *Config, lp *Loop, from *ssa.BasicBlock) *Config {
 	}
 	// 2. havoc
 	m.havocLoop(c, lp, phis, vals)
+	// implicit invariant of range loops over slices: the hidden index is >= -1 (checked on back edges)
+	for _, p := range phis {
+		if p.Comment == "rangeindex" {
+			if t, ok := fr.regs[p].(Term); ok && t.Sort == SBV64 {
+				c.st.assume(And(BVSge(t, BVLitI(-1, 64)), BVSle(t, BVLitI(1<<41, 64))))
+			}
+		}
+	}
 	// 3. assume invariant in the havocked state
 	env = m.loopEnv(c, lp)
 	ctx := &loopCtx{}
@@ -121,6 +129,13 @@ func (m *Machine) loopBack(c *Config, lp *Loop, from *ssa.BasicBlock) {
 	}
 	for i, p := range phis {
 		fr.regs[p] = vals[i]
+	}
+	for _, p := range phis {
+		if p.Comment == "rangeindex" {
+			if t, ok := fr.regs[p].(Term); ok && t.Sort == SBV64 {
+				m.emit(c, "inv-preserve", fmt.Sprintf("loop%d:rangeindex", lp.ordinal), []string{"C14"}, And(BVSge(t, BVLitI(-1, 64)), BVSle(t, BVLitI(1<<41, 64))), "", "implicit: range index >= -1")
+			}
+		}
 	}
 	lc := m.loopContract(fr.fn, lp)
 	if lc == nil {
@@ -402,6 +417,7 @@ func (m *Machine) havocLoop(c *Config, lp *Loop, phis []*ssa.Phi, entryVals []Va
 		if ms.allGhost || ms.ghosts[name] {
 			if t, ok := v.(Term); ok {
 				st.ghost[name] = m.syms.fresh(name, t.Sort)
+				m.ghostInvariant(st, name)
 			}
 		}
 	}
